@@ -428,6 +428,10 @@ func checkC11(ctx *core.Ctx, rep *core.Report) {
 	}
 
 	// ---- documents × objects × {global-copy, filtered copy} -------------------------------
+	freshRef := c11LoadRef()
+	if freshRef == nil {
+		rep.Note("no fresh-process reference table (VERIF_C11_REF): option documents are judged against the in-process reference only")
+	}
 	idx := uint64(0)
 	for ti, tg := range targets {
 		baseReg := fullCopy()
@@ -437,6 +441,11 @@ func checkC11(ctx *core.Ctx, rep *core.Report) {
 		}
 		// nil configuration vs. empty vs. the global registry itself
 		gl, _ := zl.Lint(tg.obj, lint.GlobalRegistry())
+		for _, cl := range cls {
+			if why, ok := c11RefCompare(freshRef, "empty", cl.Name, tg.sd.Name, base.Results[cl.Name]); !ok {
+				rep.Violate("C11|"+cl.Name+"|unconfigured_differs_from_fresh_process", cl.Name+" without configuration: "+why+" [seed "+tg.sd.Name+"]", map[string]interface{}{"op": "baseline", "seed": tg.sd.Name})
+			}
+		}
 		if gl != nil && zl.Vector(gl, false) != zl.Vector(base, false) {
 			rep.Violate("C11|copy_differs_from_global", "an unconfigured filtered copy judges differently from the global registry", map[string]interface{}{"op": "baseline", "seed": tg.sd.Name})
 		}
@@ -493,6 +502,17 @@ func checkC11(ctx *core.Ctx, rep *core.Report) {
 				}
 				for _, b := range c11Compare(tg.obj, base, got, d, cls) {
 					rep.Violate(b[0], b[1]+" [document "+d.desc+", seed "+tg.sd.Name+"]", art)
+				}
+				if ri == 0 {
+					for n, e := range d.expect {
+						if e != "option" {
+							continue
+						}
+						rep.Inc("fresh_process_comparisons")
+						if why, ok := c11RefCompare(freshRef, d.desc, n, tg.sd.Name, got.Results[n]); !ok {
+							rep.Violate("C11|"+n+"|option_not_applied_from_next_run", n+": "+why+" [document "+d.desc+", seed "+tg.sd.Name+"]", art)
+						}
+					}
 				}
 				// the next run without the document is back to the baseline: nothing leaks between runs
 				if di%5 == 0 {
